@@ -18,12 +18,14 @@ def run(ck):
         items.append((c.T, c.key, f, {"case": c, "orig": f, "valid": True}))
         k2 = bytearray(c.key); k2[r.randrange(16)] ^= 1 << r.randrange(8)
         items.append((c.T, bytes(k2), f, {"case": c, "orig": f, "wrongkey": True}))
+    for T, key, f, cls in forged(r, 120 if big else 50):
+        items.append((T, key, f, {"forged": cls}))
     res = run_inputs(ck, exe, env, items)
     dist = ck.cov.setdefault("case_classes", {})
     distinct, corr, last = set(), 0, None
     for x in res:
         meta = x["meta"]
-        cls = "garbage" if meta.get("garbage") else "valid" if meta.get("valid") else "wrong-key" if meta.get("wrongkey") else meta["mut"].cls
+        cls = meta["forged"] if meta.get("forged") else "garbage" if meta.get("garbage") else "valid" if meta.get("valid") else "wrong-key" if meta.get("wrongkey") else meta["mut"].cls
         ck.cov["evaluations"] += 1
         dist[cls] = dist.get(cls, 0) + 1
         distinct.add((cls, len(x["data"]), x["data"][:12]))
@@ -37,6 +39,8 @@ def run(ck):
             bad = "an operation modified its input file"
         elif meta.get("valid") and not dacc:
             bad = "a freshly encrypted file was rejected"
+        elif meta.get("forged") and not vacc:
+            bad = "a file carrying the right RFC 2104 tag for its content was rejected by verification"
         if bad:
             rep = replay_of(ck, x, {"input_class": cls})
             if cls == "flip/cmode-byte/in-range":
@@ -48,9 +52,31 @@ def run(ck):
             last = replay_of(ck, x, {"input_class": cls})
         if len(ck.cov["samples"]) < 10 and cls not in [s.get("class") for s in ck.cov["samples"]]:
             ck.cov["samples"].append({"class": cls, "len": len(x["data"]), "decrypt": x["dec"][:24], "verify": x["ver"], "verify_info": x["ver_kv"]})
+    # the two verdicts on the same file inside ONE process, after the other operation succeeded on a look-alike:
+    # verify(good); decrypt(bad); verify(bad); decrypt(good); verify(bad)  -- bad = good with one body bit changed
+    hl = []
+    for i, (c, f) in enumerate(files):
+        if len(f) <= 75:
+            continue
+        gb = bytearray(f)
+        gb[r.randrange(74, len(f))] ^= 1 << r.randrange(8)
+        good, badf, k, T = f.hex(), bytes(gb).hex(), c.key.hex(), str(c.T)
+        seq = [("ver", good), ("dec", badf), ("ver", badf), ("dec", good), ("ver", badf)]
+        hl.append("q%d hist %s" % (i, ";".join(",".join([op, T, k, x]) for op, x in seq)))
+    hres = wv.run_lines([exe], hl, env=env)
+    for cid, got in hres.items():
+        parts = [p.split(" | ")[0] for p in got.split(" ; ")]
+        ck.cov["evaluations"] += 1
+        dist["in-process-sequence"] = dist.get("in-process-sequence", 0) + 1
+        if len(parts) == 5:
+            acc = [p.startswith("OK") for p in parts]
+            if not (acc[0] and acc[3]) or acc[1] != acc[2] or acc[2] != acc[4]:
+                ck.violation("inside one process verify and decrypt disagree on the same file after the other operation had accepted a look-alike: verify(good) %s; decrypt(bad) %s; verify(bad) %s; decrypt(good) %s; verify(bad) %s" % tuple(p[:8] for p in parts),
+                             {"class": None, "history": hl[int(cid[1:])][:6000] if int(cid[1:]) < len(hl) else "", "results": parts, "driver_flags": ck.impl_flags,
+                              "replay": "feed the 'hist' line to harness/drv.cpp built against /repo"})
     ck.cov["distinct_nontrivial"] = len(distinct)
     ck.cov["disagreements_model_vs_impl"] = corr
     if corr and not [v for v in ck.violations if v[1].get("class") != K1]:
         last["broken"] = "correspondence dec/ver model vs implementation"
         ck.violation("correspondence model/implementation no longer checks on %d inputs, no property violation found" % corr, last, found_input=False)
-    return finish_proof(ck, rule="every file goes through BOTH entry points with the same key: valid files, the same files under a one-bit-different key, every mutation class of C05, the malformed stream of C11; verify runs with an output stream that records any write; input bytes compared before/after each operation. distinct = distinct (class, length, first 12 bytes)")
+    return finish_proof(ck, rule="every file goes through BOTH entry points with the same key: valid files, the same files under a one-bit-different key, every mutation class of C05, the malformed stream of C11, authentic files built outside the program (arbitrary body incl. empty / ragged / any pad byte, tag computed with python hmac, also decrypted with another thread count); verify runs with an output stream that records any write; input bytes compared before/after each operation. distinct = distinct (class, length, first 12 bytes)")
